@@ -61,7 +61,7 @@ def _quote_shard(arg):
 
 # --------------------------------------------------------------------- (b)
 
-NAMES = ['A', 'B', 'sub/C', 'D']
+NAMES = ['A', 'C', 'sub/C', 'D']     # 'C' and 'sub/C': same base name in different directories
 KINDS = ['command', 'build_step', 'alias', 'copy']
 
 
